@@ -324,6 +324,7 @@ func genC07(cfg Config, emit Emit) error {
 		nu = 4000
 	}
 	genWire(cfg, emit, 0, nu)
+	genIssued(cfg, emit, map[bool]int{false: 80, true: 1600}[cfg.Thorough()])
 	for k := 0; k < 2; k++ {
 		emit("rsastrip", []string{itoa(k)}, "sig-strip-leading-zero/rs", true)
 	}
